@@ -268,7 +268,39 @@ def c12_need(o):
     return [f"seal:{o['o']['open']}"]
 
 
+def c10_check(pid, tier, seed, replay=None):
+    """C10 = exhaustive fault sweep (Faults table) + fault injection inside random histories (rule C10.failclosed of OP.tla)."""
+    import opfamily
+    t0 = time.time()
+    wd = workdir(pid)
+    try:
+        if tier == "replay":
+            if os.path.exists(os.path.join(replay, "trace.ndjson")):
+                return opfamily.op_replay(pid, wd, replay, opfamily.FAMILY[pid])
+            tlc(wd, "OPEmitWorld.tla", cfg="OPEmitWorld.cfg", workers=1, timeout=120)
+            return table_replay(pid, wd, replay, [("Faults", "tbl-faults", ("C10.",))])
+        part = opfamily.op_part(pid, tier, seed, wd, opfamily.FAMILY[pid])
+        tb = table_run(pid, "Faults", "tbl-faults", tier, seed, wd, ("C10.",),
+                       lambda o: f"{o['c']['flow']}:{o['c']['router']}:{o['o'].get('faultedCall', '')}:{o['o']['class']}",
+                       need=lambda o: [f"faulted:{o['c']['flow']}:{o['c']['router']}"] if o["o"]["faulted"] else ["clean"], label="storage fault sweep",
+                       harness_args=["-world", "world.json"])
+        flows = {json.loads(l)["c"]["flow"] for l in open(os.path.join(wd, "Faults.cases.ndjson"))}
+        missing = [f"{f}:{r}" for f in sorted(flows) for r in ("P", "L") if not tb["coverage"].get(f"faulted:{f}:{r}")]
+        if missing or tb["divergences_total"]:
+            raise Inconclusive(f"fault sweep vacuous: no fault reached in {missing}; prepared flows that did not succeed fault-free: {tb['divergences'][:3]}")
+        new, known = report(pid, tb["viols"], lambda v: v["signature"],
+                            lambda v: dict(rule=v["rule"], module=v["module"], id=v["id"], case=v["case"], observed=v["observed"]),
+                            wd, [], seed, tier, extra_save=write_cases)
+        merge_evidence(pid, tier, seed, t0, part["coverage"], [tb], part["new"] + new, part["known"] + known,
+                       part["assumptions"] + ["fault sweep: 29 prepared flows x both routers x k-th storage call (k <= 12 / 16) x {error, deadline}; the fault plan is active only while the request is served",
+                                              "level: every (flow, router, k, kind) is executed, i.e. exhaustive over the fault positions of the prepared histories"])
+        return 1 if (part["new"] + new) else 0
+    finally:
+        cleanup(wd)
+
+
 CHECKS = {
+    "C10": c10_check,
     "C12": simple_table_check(
         [dict(module="Codec", sub="tbl-codec", prefixes=("C12.",), sig=c12_sig, need=c12_need, label="codec table",
               required=["merge:IDTokenClaims", "merge:AccessTokenClaims", "merge:LogoutTokenClaims", "merge:UserInfo", "merge:IntrospectionResponse",
